@@ -18,6 +18,7 @@ import GridVerif.Props.C19.T1D
 #print axioms GridVerif.C19.module_object_names_unique
 #print axioms GridVerif.C19.no_other_process_state
 #print axioms GridVerif.C19.cache_protocol_as_modelled
+#print axioms GridVerif.C19.mutable_defaults_never_written
 #print axioms GridVerif.C19.gstep_frame
 #print axioms GridVerif.C19.grun_frame
 #print axioms GridVerif.C19.module_tables_never_change
